@@ -124,6 +124,32 @@ func goResolve(archs []rArch, self int, world []string, multi bool) string {
 	return "ok " + strings.Join(ids, ",") + "|" + xl(conflicts)
 }
 
+// goResolveOne: PkgResolver.ResolvePackage(constraint, no disqualifications) on one architecture — the
+// candidates the constraint accepts, as a sorted id list (the preference order among them is the business
+// of the full resolution steps)
+func goResolveOne(a rArch, constraint string) string {
+	b := buildArch(a)
+	res := apk.NewPkgResolver(context.Background(), b.indexes)
+	pkgs, err := res.ResolvePackage(constraint, map[*apk.RepositoryPackage]string{})
+	if err != nil {
+		return "err"
+	}
+	var ids []int
+	for _, p := range pkgs {
+		id, ok := b.ids[p.Package]
+		if !ok {
+			id = 999999
+		}
+		ids = append(ids, id)
+	}
+	sort.Ints(ids)
+	out := make([]string, len(ids))
+	for i, id := range ids {
+		out[i] = fmt.Sprint(id)
+	}
+	return "ok " + strings.Join(out, ",")
+}
+
 // goResolveStable runs the resolution on `reps` freshly built universes (fresh pointers, fresh map
 // orders); differing answers are reported as such (C08: resolution is a pure function of its inputs).
 func goResolveStable(archs []rArch, self int, world []string, multi bool, reps int) string {
@@ -145,6 +171,7 @@ type rgen struct {
 	virts  []string
 	vers   map[string][]string
 	origin map[string]string
+	twin   string // a versioned constraint on the virtual of the twin providers ("" = none)
 }
 
 func (g *rgen) depString(allowNeg bool, self string) string {
@@ -306,6 +333,35 @@ func genUniverse(r *Rng, big bool) (*rgen, []rIndex) {
 			}
 		}
 	}
+	// twin providers: two different packages with the SAME package version provide one virtual name at
+	// different versions, so a versioned constraint on the virtual separates them only through their provides
+	if r.Chance(18) && len(g.names) >= 2 {
+		vt := Pick(r, g.virts)
+		v := Pick(r, verPool)
+		a := r.Intn(len(g.names))
+		b := (a + 1 + r.Intn(len(g.names)-1)) % len(g.names)
+		pv := []string{g.vers[vt][0], g.vers[vt][1]}
+		if pv[0] == pv[1] {
+			pv[1] = Pick(r, verPool)
+		}
+		for k, ni := range []int{a, b} {
+			n := g.names[ni]
+			placed := false
+			for i := range indexes {
+				for j := range indexes[i].Pkgs {
+					if q := &indexes[i].Pkgs[j]; q.Name == n && q.Version == v {
+						q.Provides = append(q.Provides, vt+"="+pv[k])
+						placed = true
+					}
+				}
+			}
+			if !placed {
+				g.vers[n] = append(g.vers[n], v)
+				indexes[0].Pkgs = append(indexes[0].Pkgs, rPkg{Name: n, Version: v, Origin: g.origin[n], Provides: []string{vt + "=" + pv[k]}})
+			}
+		}
+		g.twin = vt + Pick(r, []string{">=", ">", "<=", "<", "="}) + Pick(r, []string{pv[0], pv[1], Pick(r, verPool)})
+	}
 	// every virtual name has at least one provider (otherwise most universes fail with "nothing provides")
 	for _, vt := range g.virts {
 		provided := false
@@ -363,6 +419,9 @@ func genWorld(g *rgen, indexes []rIndex) []string {
 	}
 	if r.Chance(5) && len(w) > 0 {
 		w = append(w, w[0])
+	}
+	if g.twin != "" && r.Chance(70) {
+		w = append(w, g.twin)
 	}
 	return w
 }
@@ -453,6 +512,31 @@ func (s resolverSuite) Run(raw json.RawMessage) []Step {
 	steps = append(steps, s.sharedSequence(c, enc)...)
 	if s.name == "multiarch" && c.Multi && resolverE2EEligible(c) && len(raw)%3 == 0 {
 		steps = append(steps, s.e2eStep(c, enc)...)
+	}
+	if s.name == "resolver" {
+		// every constraint of the world and of every package, asked of ResolvePackage on its own
+		seen := map[string]bool{}
+		ask := func(con string) {
+			if seen[con] || strings.HasPrefix(con, "!") || len(seen) >= 12 {
+				return
+			}
+			seen[con] = true
+			out := goResolveOne(c.Archs[0], con)
+			fields := append([]string{"r.one", xs(con), xs(c.Archs[0].Arch)}, encodeArchs(c.Archs[:1])...)
+			fields = append(fields, out)
+			steps = append(steps, Step{Line: strings.Join(fields, "\t"), Go: out, Desc: fmt.Sprintf("ResolvePackage(%q) %s", con, describeCase(c, 0)),
+				Tags: []string{"one:" + strings.SplitN(out, " ", 2)[0]}, Mode: "verdict", Trivial: out == "err"})
+		}
+		for _, w := range c.World {
+			ask(w)
+		}
+		for _, ix := range c.Archs[0].Indexes {
+			for _, p := range ix.Pkgs {
+				for _, d := range p.Deps {
+					ask(d)
+				}
+			}
+		}
 	}
 	for self := range c.Archs {
 		out := goResolveStable(c.Archs, self, c.World, c.Multi, 2)
